@@ -49,11 +49,13 @@ pub struct Program {
 
 fn pred<T: Val>(kind: u8, arg: u32) -> impl Fn(T) -> bool {
     let a = T::of(arg);
-    move |old: T| match kind % 4 {
+    move |old: T| match kind % 5 {
         0 => old < a,
         1 => old == a,
         2 => true,
-        _ => false,
+        3 => false,
+        // a predicate that never answers: it unwinds instead (the write must not have happened)
+        _ => panic!("predicate unwinds"),
     }
 }
 
@@ -67,7 +69,7 @@ impl Program {
             "ops": self.ops.iter().map(|o| match o {
                 Op::Add(h, v) => json!(["add", format!("{:#x}", h), v]),
                 Op::ReplaceIf(h, v, k, a) => {
-                    let pk = ["old<arg", "old==arg", "true", "false"][*k as usize % 4];
+                    let pk = ["old<arg", "old==arg", "true", "false", "panics"][*k as usize % 5];
                     json!(["replace_if", format!("{:#x}", h), v, pk, a])
                 }
                 Op::Get(h) => json!(["get", format!("{:#x}", h)]),
@@ -88,7 +90,7 @@ impl Program {
                 "add" => Op::Add(hx(&a[1])?, a[2].as_u64()? as u32),
                 "get" => Op::Get(hx(&a[1])?),
                 _ => {
-                    let k = ["old<arg", "old==arg", "true", "false"].iter().position(|x| Some(*x) == a[3].as_str())? as u8;
+                    let k = ["old<arg", "old==arg", "true", "false", "panics"].iter().position(|x| Some(*x) == a[3].as_str())? as u8;
                     Op::ReplaceIf(hx(&a[1])?, a[2].as_u64()? as u32, k, a[4].as_u64()? as u32)
                 }
             });
@@ -122,9 +124,20 @@ fn run_typed<T: Val>(ctx: &mut Ctx, p: &Program) -> Result<(), Violation> {
             }
             Op::ReplaceIf(h, v, k, a) => {
                 let s = slot(h);
-                let f = pred::<T>(k, a);
-                let fire = f(model[s].1);
-                table.replace_if(h, T::of(v), pred::<T>(k, a));
+                let fire = if k % 5 == 4 {
+                    // the predicate unwinds: it never said "true", so nothing may be written
+                    let r = std::panic::catch_unwind(std::panic::AssertUnwindSafe(|| table.replace_if(h, T::of(v), pred::<T>(k, a))));
+                    if r.is_ok() {
+                        ctx.count("unwinding_predicate_not_called", 1);
+                    }
+                    ctx.class("op:replace_if-with-unwinding-predicate");
+                    false
+                } else {
+                    let f = pred::<T>(k, a);
+                    let fire = f(model[s].1);
+                    table.replace_if(h, T::of(v), pred::<T>(k, a));
+                    fire
+                };
                 if fire {
                     if model[s].0 != h {
                         overwrites += 1;
@@ -253,6 +266,8 @@ pub fn program_strategy(max_log2: u8, max_ops: usize) -> impl Strategy<Value = P
                 // small value domain so that predicates fire and refuse
                 let v = if pk % 2 == 0 { v % 8 } else { v };
                 let pa = if pk % 2 == 0 { pa % 8 } else { pa };
+                // predicate kinds 0-3 as drawn; one conditional write in sixteen has an unwinding predicate
+                let pk = if pk % 16 == 15 { 4 } else { pk % 4 };
                 match kind {
                     0 => Op::Add(h, v),
                     1 => Op::ReplaceIf(h, v, pk, pa),
